@@ -10,7 +10,7 @@ use sea_query::*;
 use std::io::Write as _;
 
 #[derive(Clone, Debug)]
-struct Col { name: String, ty: ColumnType, aff: &'static str, not_null: bool, dflt: Option<Value>, unique: bool, pk: bool, autoinc: bool, check: bool, /// spec order: indices into the spec list
+struct Col { /** an explicit NULL specification (the column is nullable anyway) */ explicit_null: bool, name: String, ty: ColumnType, aff: &'static str, not_null: bool, dflt: Option<Value>, unique: bool, pk: bool, autoinc: bool, check: bool, /// spec order: indices into the spec list
     order: Vec<u8> }
 #[derive(Clone, Debug)]
 struct Key { name: Option<String>, cols: Vec<(String, Option<bool>)>, unique: bool, primary: bool, partial: bool, created: bool }
@@ -65,13 +65,14 @@ impl G {
         let autoinc = pk && matches!(ty, ColumnType::Integer | ColumnType::Unsigned | ColumnType::BigInteger | ColumnType::BigUnsigned) && self.r.chance(1, 2);
         let mut order: Vec<u8> = (0..6).collect();
         for i in (1..order.len()).rev() { let j = self.r.below(i as u64 + 1) as usize; order.swap(i, j); }
-        Col { name: self.name("c"), ty, aff, not_null: self.r.chance(1, 3), dflt: if self.r.chance(1, 3) { Some(default_for(&mut self.r, aff)) } else { None }, unique: !pk && allow_key && self.r.chance(1, 8), pk, autoinc, check: self.r.chance(1, 8), order }
+        { let not_null = self.r.chance(1, 3); let explicit_null = !not_null && !pk && self.r.chance(1, 3);
+        Col { explicit_null, name: self.name("c"), ty, aff, not_null, dflt: if self.r.chance(1, 3) { Some(default_for(&mut self.r, aff)) } else { None }, unique: !pk && allow_key && self.r.chance(1, 8), pk, autoinc, check: self.r.chance(1, 8), order } }
     }
     fn build_col(&self, c: &Col) -> ColumnDef {
         let mut d = ColumnDef::new_with_type(a(&c.name), c.ty.clone());
         for k in &c.order {
             match k {
-                0 => { if c.not_null { d.not_null(); } }
+                0 => { if c.not_null { d.not_null(); } else if c.explicit_null { d.null(); } }
                 1 => { if let Some(v) = &c.dflt { d.default(v.clone()); } }
                 2 => { if c.unique { d.unique_key(); } }
                 3 => { if c.pk { d.primary_key(); } }
